@@ -514,7 +514,15 @@ impl<A: Address> Net<A> {
         CB: Callback<A>,
         W: Warn<Warning<A>>,
     {
-        if let Some(pid) = self.peers.pid_from_addr(addr) {
+        // A peer that the application hasn't accepted (or rejected) yet has
+        // no connection state: its `Connection` must stay untouched until
+        // `accept` feeds it the connect packet. Packets from its address are
+        // handled statelessly, like those from unknown addresses.
+        let pid = self.peers.pid_from_addr(addr);
+        let pending = pid
+            .map(|pid| self.peers[pid].conn.is_unconnected())
+            .unwrap_or(false);
+        if let (Some(pid), false) = (pid, pending) {
             let (packet, e) = self.peers[pid].conn.feed(
                 &mut cc(cb, addr),
                 &mut wp(warn, addr, pid),
@@ -538,7 +546,11 @@ impl<A: Address> Net<A> {
                 ..
             }) = packet
             {
-                if self.accept_connections {
+                if pending {
+                    // Repeated connect packet, the peer has already been
+                    // announced to the application.
+                    (ReceivePacket::none(), Ok(()))
+                } else if self.accept_connections {
                     // TODO: This is vulnerable to IP spoofing.
                     let (pid, _) = self.peers.new_peer(addr, token.is_some());
                     (ReceivePacket::connect(pid), Ok(()))
